@@ -115,8 +115,12 @@ Definition ip6_set_payload (o : nat) (b : bytes) (n : nat) (nh : N) : bytes :=
 
 (* layer_icmp.go:464 icmp6SendPacket.  The AppendPayload error is dropped by the code
    (ip6 = nil), after which ip6.Src() panics. *)
+(* len(b) > 0 && b[0] >= 133 && b[0] <= 137: a Neighbor Discovery message (RS, RA, NS, NA, Redirect) *)
+Definition nd_message (p : bytes) : bool := (133 <=? nth 0 p 0) && (nth 0 p 0 <=? 137).
+
+(* hop limit 255 towards link-local destinations and, since fix 5a5618d, for every Neighbor Discovery message *)
 Definition icmp6_send_packet (c : cfg) (src dst : addr) (p : bytes) (junk : bytes) : res (list bytes) :=
-  let hop := if ll_unicast (a_ip dst) || ll_multicast (a_ip dst) then 255 else 64 in
+  let hop := if ll_unicast (a_ip dst) || ll_multicast (a_ip dst) || nd_message p then 255 else 64 in
   let b := enc_ether junk 34525 (host_mac c) (a_mac dst) in
   let b := enc_ip6 14 b hop (a_ip src) (a_ip dst) in
   match ip6_append_payload 14 b p 58 with
